@@ -184,9 +184,14 @@ def main(argv=None) -> int:
         if ns.cmd == "refdigest":
             from .selftest import REF, tree_digest
 
+            repo = Repo(alpha=False)
             with open(REF, "w", encoding="utf-8") as fh:
-                fh.write(tree_digest(Repo()) + "\n")
-            print("[acsa] reference digest written")
+                fh.write(tree_digest(repo) + "\n")
+            from .alpha import REF_LOCALS, reference_table
+
+            with open(REF_LOCALS, "w", encoding="utf-8") as fh:
+                json.dump(reference_table({rel: m.tree for rel, m in repo.by_relpath.items()}), fh, indent=0, sort_keys=True)
+            print("[acsa] reference digest and reference local-name table written")
             return 0
         if ns.cmd == "all":
             worst = 0
